@@ -25,6 +25,10 @@ type Case struct {
 	Over int     `json:"over,omitempty"` // >0: the (full) root got this many AppendSample calls, all rejected, before the window was sliced
 	Fix  int     `json:"fix,omitempty"`  // fixture construction order, see kit.RootWindow; 3 = buffer produced by a growing Append (see runGrown)
 	Vals []int64 `json:"vals"`           // 0..127: representable in every element type
+	// Fix 3 only: the buffer under test is the window [Ws,We) (frames) of the grown buffer
+	Win bool `json:"win,omitempty"`
+	Ws  int  `json:"ws,omitempty"`
+	We  int  `json:"we,omitempty"`
 }
 
 var table = map[string]func(*Case) kit.Result{}
@@ -101,9 +105,9 @@ func runGrown[T signal.SignalTypes](c *Case) (res kit.Result) {
 		res.Failf("fixture: Append of %d samples onto %d samples (%d ch) panicked: %v", c.B, c.A, C, v)
 		return
 	}
-	ln, cp := b.Len(), b.Cap()
-	if ln != c.A+c.B || cp < ln {
-		res.Failf("fixture: after Append Len %d Cap %d, want Len %d", ln, cp, c.A+c.B)
+	pl, cp := b.Len(), b.Cap()
+	if pl != c.A+c.B || cp < pl {
+		res.Failf("fixture: after Append Len %d Cap %d, want Len %d", pl, cp, c.A+c.B)
 		return
 	}
 	if cp%C != 0 {
@@ -111,46 +115,79 @@ func runGrown[T signal.SignalTypes](c *Case) (res kit.Result) {
 	}
 	res.Class("bufferFromGrowingAppend")
 	alias := b.Slice(0, b.Capacity()) // sees the whole frames of the storage
-	before := make([]T, ln)
-	for i := range before {
-		before[i] = b.Sample(i)
+	// every position of the storage that some header can read
+	visible := pl
+	if alias.Len() > visible {
+		visible = alias.Len()
 	}
+	read := func(i int) T {
+		if i < pl {
+			return b.Sample(i)
+		}
+		return alias.Sample(i)
+	}
+	model := make([]T, visible)
+	for i := range model {
+		model[i] = read(i)
+	}
+	// the buffer under test: the grown buffer itself or a window of it
+	t, off, ln, tc := b, 0, pl, cp
+	if c.Win {
+		if c.Ws < 0 || c.Ws > c.We || c.We > cp/C {
+			return kit.Result{}
+		}
+		t, off, ln, tc = b.Slice(c.Ws, c.We), c.Ws*C, (c.We-c.Ws)*C, cp-c.Ws*C
+		res.Class("windowOfGrownBuffer")
+		if tc%C != 0 {
+			res.Class("windowCapacityNotWholeFrames")
+		}
+		if t.Len() != ln || t.Cap() != tc {
+			res.Failf("fixture: window [%d,%d) of a grown buffer (len=%d,cap=%d samples, %d ch) has Len %d Cap %d, want %d and %d", c.Ws, c.We, pl, cp, C, t.Len(), t.Cap(), ln, tc)
+			return
+		}
+	}
+	ln0 := ln
 	for j := 0; j < c.N; j++ {
 		v := val[T](c.Vals[j%len(c.Vals)])
-		what := fmt.Sprintf("call %d AppendSample(%s) on a grown buffer (len=%d,cap=%d samples, %d ch)", j, kit.Str(v), ln, cp, C)
-		if p, pv := kit.Try(func() { b.AppendSample(v) }); p {
+		what := fmt.Sprintf("call %d AppendSample(%s) on a grown buffer (len=%d,cap=%d samples, %d ch; window=%v [%d,%d))", j, kit.Str(v), pl, cp, C, c.Win, c.Ws, c.We)
+		if p, pv := kit.Try(func() { t.AppendSample(v) }); p {
 			res.Failf("%s: panic: %v", what, pv)
 			return
 		}
-		if ln < cp {
+		if ln < tc {
 			ln++
-			if b.Len() != ln {
-				res.Failf("%s: buffer is not full but Len is %d, want %d", what, b.Len(), ln)
+			if t.Len() != ln {
+				res.Failf("%s: buffer is not full but Len is %d, want %d", what, t.Len(), ln)
 				return
 			}
-			if got := b.Sample(ln - 1); !kit.Same(got, v) {
+			if got := t.Sample(ln - 1); !kit.Same(got, v) {
 				res.Failf("%s: position Len-1=%d reads %s", what, ln-1, kit.Str(got))
 				return
 			}
-			if ln-1 < alias.Len() {
-				if got := alias.Sample(ln - 1); !kit.Same(got, v) {
-					res.Failf("%s: a view of the same storage reads %s at position %d (storage no longer shared?)", what, kit.Str(got), ln-1)
+			if off+ln-1 < visible {
+				model[off+ln-1] = v
+				if got := read(off + ln - 1); !kit.Same(got, v) {
+					res.Failf("%s: a view of the same storage reads %s at its position %d (storage no longer shared?)", what, kit.Str(got), off+ln-1)
 					return
 				}
 			}
 		}
-		if b.Len() != ln || b.Cap() != cp || b.Length() != kit.CeilDiv(ln, C) || b.Capacity() != cp/C {
-			res.Failf("%s: Len/Cap/Length/Capacity = %d/%d/%d/%d, want %d/%d/%d/%d", what, b.Len(), b.Cap(), b.Length(), b.Capacity(), ln, cp, kit.CeilDiv(ln, C), cp/C)
+		if t.Len() != ln || t.Cap() != tc || t.Length() != kit.CeilDiv(ln, C) || t.Capacity() != tc/C {
+			res.Failf("%s: Len/Cap/Length/Capacity = %d/%d/%d/%d, want %d/%d/%d/%d", what, t.Len(), t.Cap(), t.Length(), t.Capacity(), ln, tc, kit.CeilDiv(ln, C), tc/C)
+			return
+		}
+		if c.Win && (b.Len() != pl || b.Cap() != cp) {
+			res.Failf("%s: the grown parent's Len/Cap changed to %d/%d", what, b.Len(), b.Cap())
 			return
 		}
 	}
-	for i := range before {
-		if got := b.Sample(i); !kit.Same(got, before[i]) {
-			res.Failf("after %d calls: earlier sample %d changed from %s to %s", c.N, i, kit.Str(before[i]), kit.Str(got))
+	for i := range model {
+		if got := read(i); !kit.Same(got, model[i]) {
+			res.Failf("after %d calls on a grown buffer (len=%d,cap=%d samples, %d ch; window=%v [%d,%d)): storage position %d reads %s, want %s", c.N, pl, cp, C, c.Win, c.Ws, c.We, i, kit.Str(got), kit.Str(model[i]))
 			return
 		}
 	}
-	if c.N > cp-(c.A+c.B) {
+	if c.N > tc-ln0 {
 		res.Class("crossesCapacity")
 	}
 	return
@@ -234,7 +271,10 @@ func run[T signal.SignalTypes](c *Case) (res kit.Result) {
 func FP(c *Case) uint64 {
 	h := kit.NewHasher()
 	h.Str(c.T)
-	h.Ints([]int{c.C, c.Kr, c.A, c.B, c.N, c.Fix, c.Over, len(c.Vals)})
+	h.Ints([]int{c.C, c.Kr, c.A, c.B, c.N, c.Fix, c.Over, len(c.Vals), c.Ws, c.We})
+	if c.Win {
+		h.Int(1)
+	}
 	for _, v := range c.Vals {
 		h.Int(int(v))
 	}
@@ -272,12 +312,26 @@ func Gen(t *rapid.T) *Case {
 		c.A = rapid.IntRange(0, c.C-1).Draw(t, "pre")
 		c.B = rapid.IntRange(1, 40).Draw(t, "srcSamples")
 		c.N = rapid.IntRange(0, 3*c.C+20).Draw(t, "nGrown")
+		if rapid.Bool().Draw(t, "grownWindow") {
+			// a window of the grown buffer; frames beyond the storage make the case a no-op
+			c.Win = true
+			fr := (c.A+c.B)/c.C + 2
+			c.Ws = rapid.IntRange(0, fr).Draw(t, "ws")
+			c.We = rapid.IntRange(c.Ws, kitMin(fr, c.Ws+2)).Draw(t, "we")
+		}
 	}
 	nv := rapid.IntRange(1, 6).Draw(t, "nvals")
 	for i := 0; i < nv; i++ {
 		c.Vals = append(c.Vals, int64(rapid.IntRange(0, 128).Draw(t, "v")))
 	}
 	return c
+}
+
+func kitMin(a, b int) int {
+	if a < b {
+		return a
+	}
+	return b
 }
 
 var Oracle = kit.Oracle[Case]{Property: Property, Gen: Gen, Check: Check, FP: FP}
